@@ -1878,3 +1878,20 @@ pub fn regenerate_id<'a>(id: &'a str, strategy: &'a IdStrategy) -> String {
         }
     }
 }
+
+#[cfg(feature = "verif-hooks")]
+impl<HandleType> IdMap<HandleType>
+where
+    HandleType: Handle,
+{
+    /// Verification hook: the entries of the map sorted by public id (the underlying HashMap has no stable order)
+    pub fn verif_sorted(&self) -> Vec<(&str, usize)> {
+        let mut v: Vec<(&str, usize)> = self
+            .data
+            .iter()
+            .map(|(k, h)| (k.as_str(), h.as_usize()))
+            .collect();
+        v.sort();
+        v
+    }
+}
